@@ -1,4 +1,5 @@
 import Proofs.C18
+import Proofs.Facts.C18
 #print axioms C18.series_order_independent
 #print axioms C18.series_order_independent_results
 #print axioms C18.cells_iteration_order_independent
@@ -17,3 +18,10 @@ import Proofs.C18
 #print axioms C18.date_same_instant_same_string
 #print axioms C18.normalised_sort_is_chronological
 #print axioms C18.year_10000_sorts_first
+#print axioms C18.Facts.rot_agrees
+#print axioms C18.Facts.hash_source_pinned
+#print axioms C18.Facts.compact_form_agrees
+#print axioms C18.Facts.respell_agrees
+#print axioms C18.Facts.input_layout_agrees
+#print axioms C18.Facts.output_layout_agrees
+#print axioms C18.Facts.layouts_pinned
